@@ -463,14 +463,48 @@ fn force_short_crc(m: &mut RMsg, ms: &mut MsgScn) -> bool {
     false
 }
 
+/// Same search, for an exact checksum value of a special shape (all zeros, all ones, a zero
+/// high or low byte, escape look-alikes), kept in the ordinary two-byte field.
+fn force_crc_value(m: &mut RMsg, ms: &mut MsgScn, target: u16) -> bool {
+    let sites = walk_sites(&ms.body);
+    let Some(tid) = sites.iter().find(|s| s.depth == 1) else { return false };
+    if tid.ty != TY_OCT || tid.len < 2 || m.tid.len() != tid.len {
+        return false;
+    }
+    let at = tid.end - 2;
+    let (o0, o1) = (ms.body.0[at], ms.body.0[at + 1]);
+    for v in 0..=0xffffu32 {
+        ms.body.0[at] = (v >> 8) as u8;
+        ms.body.0[at + 1] = v as u8;
+        if crate::refenc::crc16_x25(&ms.body).swap_bytes() == target {
+            let n = m.tid.len();
+            m.tid.0[n - 2] = (v >> 8) as u8;
+            m.tid.0[n - 1] = v as u8;
+            return true;
+        }
+    }
+    ms.body.0[at] = o0;
+    ms.body.0[at + 1] = o1;
+    false
+}
+
+pub const SPECIAL_CRCS: [u16; 10] = [0x0000, 0xffff, 0x00ff, 0xff00, 0x0100, 0x0001, 0x1b1b, 0x0076, 0x7600, 0x8000];
+
 pub fn gen_valid(rng: &mut Rng, max_entries: usize) -> (RFile, Vec<u8>, Vec<MsgScn>) {
     let mut f = gen_rfile(rng, max_entries);
     let prof = Profile::draw(rng);
     let (mut bytes, mut msgs) = encode_file(&f, rng, &prof);
     if rng.chance(1, 6) {
         for (m, ms) in f.msgs.iter_mut().zip(msgs.iter_mut()) {
-            if rng.chance(1, 2) {
-                force_short_crc(m, ms);
+            match rng.below(4) {
+                0 | 1 => {
+                    force_short_crc(m, ms);
+                }
+                2 => {
+                    let t = *rng.pick(&SPECIAL_CRCS);
+                    force_crc_value(m, ms, t);
+                }
+                _ => {}
             }
         }
         bytes.clear();
